@@ -81,6 +81,38 @@ func (g *gen) boolE(d int) node {
 	}
 }
 
+// objE: an object literal whose properties are a random subset of the pool names (so that a
+// `with` over it shadows some of the program's variables and not others)
+func (g *gen) objE() node {
+	var sx, js []string
+	for _, x := range pool {
+		if g.r.Chance(55) {
+			n := g.r.Intn(90) + 10
+			sx = append(sx, fmt.Sprintf("%s(n%d)", x, n))
+			js = append(js, fmt.Sprintf("%s: (%d)", x, n))
+		}
+	}
+	return node{"obj(" + strings.Join(sx, ",") + ")", "({" + strings.Join(js, ", ") + "})"}
+}
+
+// withOperand: mostly objects; sometimes the variable o (undefined until assigned: TypeError),
+// a number (ToObject wrapper: shadows nothing) or undefined
+func (g *gen) withOperand() node {
+	switch k := g.r.Intn(20); {
+	case k < 11:
+		return g.objE()
+	case k < 16:
+		return node{"var(o)", "o"}
+	case k < 17:
+		o := g.objE()
+		return node{"asg(o," + o.sx + ")", "(o = " + o.js + ")"}
+	case k < 19:
+		return g.intE(1)
+	default:
+		return node{"u", "(void 0)"}
+	}
+}
+
 func (g *gen) newCounter() string {
 	g.nCounter++
 	k := fmt.Sprintf("k%d", g.nCounter)
@@ -143,7 +175,16 @@ func (g *gen) stmt(d int) []node {
 	if d <= 0 || g.budget <= 0 {
 		return []node{g.simple()}
 	}
-	switch g.r.Intn(16) {
+	switch g.r.Intn(18) {
+	case 16, 17: // with: the label set of a labelled `with` does not reach a loop in its body
+		o := g.withOperand()
+		var body node
+		if g.r.Chance(70) {
+			body = block(g.stmts(3, d-1))
+		} else {
+			body = g.single(d - 1)
+		}
+		return []node{{"Wi(" + o.sx + "," + body.sx + ")", "with (" + o.js + ") " + body.js}}
 	case 0, 1, 2:
 		return []node{g.simple()}
 	case 3: // block
@@ -220,6 +261,10 @@ func (g *gen) stmt(d int) []node {
 func (g *gen) simple() node {
 	switch g.r.Intn(10) {
 	case 0:
+		if g.r.Chance(40) {
+			o := g.objE()
+			return node{"X(asg(o," + o.sx + "))", "o = " + o.js + ";"}
+		}
 		return node{"E", ";"}
 	case 1:
 		if g.r.Chance(8) {
@@ -349,7 +394,7 @@ func GenProgram(r *h.Rng, size int) (string, string, string) {
 		e := g.intE(2)
 		body = append(body, node{"X(" + e.sx + ")", e.js + ";"})
 	}
-	vars := append(append([]string{}, pool...), g.counters...)
+	vars := append(append(append([]string{}, pool...), g.counters...), "o")
 	var inits []string
 	var initsJS []string
 	for _, v := range pool {
@@ -360,6 +405,7 @@ func GenProgram(r *h.Rng, size int) (string, string, string) {
 	for _, k := range g.counters {
 		decl += ", " + k
 	}
+	decl += ", o"
 	head := node{"V(" + strings.Join(inits, ",") + ")", decl + ";"}
 	all := append([]node{head}, body...)
 	return strings.Join(vars, ","), "P(" + joinSX(all) + ")", joinJS(all, " ")
